@@ -175,6 +175,7 @@ pub struct PlanRecord {
 
 std::thread_local! {
     static PRUNE_LOG: RefCell<Option<Vec<(bool, Vec<PlanRecord>)>>> = RefCell::new(None);
+    static PERM_LOG: RefCell<Vec<Vec<usize>>> = RefCell::new(Vec::new());
 }
 
 /// Start (`true`) or stop recording the calls of `remove_hopeless_cases` on this thread.
@@ -185,6 +186,28 @@ pub fn prune_log_enable(on: bool) {
 /// Take the recorded calls: for each call the list after sorting (`false`) and at the end (`true`).
 pub fn prune_log_take() -> Vec<(bool, Vec<PlanRecord>)> {
     PRUNE_LOG.with(|l| l.borrow_mut().as_mut().map(core::mem::take).unwrap_or_default())
+}
+
+/// Take the recorded sort permutations: for each call of `remove_hopeless_cases` since the last
+/// take, the index in the unsorted list of the plan at each position of the sorted list.
+pub fn prune_perm_take() -> Vec<Vec<usize>> {
+    PERM_LOG.with(|l| core::mem::take(&mut *l.borrow_mut()))
+}
+
+pub(crate) fn prune_perm_record(
+    pre: &[Vec<(usize, EncodationType)>],
+    post: &[&Vec<(usize, EncodationType)>],
+) {
+    let mut used = alloc::vec![false; pre.len()];
+    let mut perm = Vec::with_capacity(post.len());
+    for p in post {
+        let j = (0..pre.len()).find(|&j| !used[j] && &pre[j] == *p).unwrap_or(usize::MAX);
+        if j != usize::MAX {
+            used[j] = true;
+        }
+        perm.push(j);
+    }
+    PERM_LOG.with(|l| l.borrow_mut().push(perm));
 }
 
 pub(crate) fn prune_log_on() -> bool {
